@@ -151,9 +151,9 @@ func runC07(ctx *core.Ctx, idx int) *core.Result {
 			panic("c07: hostile header does not parse:\n" + files[0].src)
 		}
 		if r.Intn(3) == 0 {
-			// CRLF line ends and, before the rest of the code, a line longer than any line buffer: whatever re-flows
+			// CRLF line ends and, inside a function in front of the rest of the code, a line longer than any line buffer: whatever re-flows
 			// the checked text line by line must not lose the tail
-			files[0].src = strings.Replace(files[0].src, "package p\n", "package p\n\nvar blobLine = \""+strings.Repeat("0123456789abcdef", 4200)+"\"\n", 1)
+			files[0].src = strings.Replace(files[0].src, "package p\n", "package p\n\nfunc blobLine() string {\n\treturn \""+strings.Repeat("0123456789abcdef", 4200)+"\"\n}\n", 1)
 			files[0].src = strings.ReplaceAll(files[0].src, "\n", "\r\n")
 			if mode == "diff" {
 				mode = "inplace" // --diff on such a file is the known finding of C12 (pkg/diff)
